@@ -5,11 +5,27 @@ class FieldData:
   Disallow editing the VN tag in connected header lines
   """
 
+  def _check_new_vn(self, fieldname, value):
+    # (the tag can be added, if the header has none, but not with a version
+    # which is not that of the Gfa)
+    if fieldname == "VN" and value is not None and self.is_connected() and \
+        self.get("VN") is None:
+      expected = {"gfa1": "1.0", "gfa2": "2.0"}.get(self._gfa.version)
+      if expected is not None and str(value) != expected:
+        raise gfapy.VersionError(
+          "The header tag VN cannot be set to {}\n".format(value)+
+          "The version of the Gfa is {}".format(expected))
+
+  def set(self, fieldname, value):
+    self._check_new_vn(fieldname, value)
+    return super().set(fieldname, value)
+
   def _set_existing_field(self, fieldname, value, set_reference=False):
     if fieldname == "VN" and self.get("VN") is not None and self.is_connected():
       raise gfapy.RuntimeError(
         "The value of the header tag VN cannot be edited\n"+
         "For version conversion use to_gfa1 or to_gfa2")
     else:
+      self._check_new_vn(fieldname, value)
       super()._set_existing_field(fieldname, value,
                                   set_reference=set_reference)
